@@ -280,3 +280,75 @@ package pkg
 //@   requires c != nil
 //@   nopanic
 //@   modifies
+
+// ---- JSON rule loader (C20): no input makes it panic. encoding/json itself is opaque (T-JSON: Unmarshal leaves an ARBITRARY
+// value of the target's type behind); everything the translator then does with that value is checked. ----
+// ((Resource).Load is T-USER: see the builder's contracts)
+//@ func (jr *JSONResource) Load() (data, err)
+//@   serves C20
+//@   opt alloc=1
+//@   requires jr != nil && jr.subRes != nil
+//@   nopanic
+//@   modifies alloc, fresh GruleJSON.*, $allocated
+//@ func ParseJSONRuleset(data) (rs, err)
+//@   serves C20
+//@   opt alloc=1
+//@   nopanic
+//@   modifies alloc, fresh GruleJSON.*, $allocated
+//@ func ParseJSONRule(data) (rs, err)
+//@   serves C20
+//@   opt alloc=1
+//@   nopanic
+//@   modifies alloc, fresh GruleJSON.*, $allocated
+//@ func ParseRule(rule) (r, err)
+//@   serves C20
+//@   requires rule != nil
+//@   nopanic
+//@   modifies $allocated
+//@ func parseRule(rule) (r, err)
+//@   serves C20
+//@   requires rule != nil
+//@   nopanic
+//@   modifies $allocated
+//@   ensures blank: len(rule.Name) == 0 || rule.When == nil ==> err != nil
+//@ func parseThen(ts) (r, err)
+//@   serves C20
+//@   nopanic
+//@   modifies $allocated
+//@ func parseWhen(w) (r, err)
+//@   serves C20
+//@   nopanic
+//@   modifies $allocated
+//@ func buildExpression(input, depth) (r, err)
+//@   serves C20
+//@   nopanic
+//@   modifies $allocated
+//@ func buildExpressionEx(input, depth) (r, nowrap, err)
+//@   serves C20
+//@   nopanic
+//@   modifies $allocated
+//@   ensures single: len(input) != 1 ==> err != nil
+//@ func buildCompoundOperator(o, depth, operator) (r, nowrap, err)
+//@   serves C20
+//@   nopanic
+//@   modifies $allocated
+//@ func joinCall(v) (r, err)
+//@   serves C20
+//@   nopanic
+//@   modifies $allocated
+//@ func parseCallOperand(o) (r, err)
+//@   serves C20
+//@   nopanic
+//@   modifies $allocated
+//@ func joinOperator(v, operator) (r, err)
+//@   serves C20
+//@   nopanic
+//@   modifies $allocated
+//@ func joinSet(v, operator) (r, err)
+//@   serves C20
+//@   nopanic
+//@   modifies $allocated
+//@ func parseOperand(o, noWrap, negation) (r, err)
+//@   serves C20
+//@   nopanic
+//@   modifies $allocated
